@@ -417,10 +417,11 @@ def kill_matrix(prop, jobs=3):
                 return dict(seed=name, outcome="scratch copy failed")
             if subprocess.run(["git", "apply", "--unsafe-paths", patch], cwd=tmp, stdout=subprocess.PIPE, stderr=subprocess.PIPE).returncode:
                 return dict(seed=name, outcome="patch does not apply to this tree")
-            env = dict(os.environ, VERIF_REPO=tmp, VERIF_BUILD=os.path.join(tmp, "build"), VERIF_EVIDENCE=os.path.join(tmp, "evidence"), VERIF_REPLAY=os.path.join(tmp, "replay"))
+            env = dict(os.environ, VERIF_REPO=tmp, VERIF_BUILD=os.path.join(tmp, "build"), VERIF_EVIDENCE=os.path.join(tmp, "evidence"), VERIF_REPLAY=os.path.join(tmp, "replay"),
+                       VERIF_ORACLE_EXCLUDE=name)   # a seeded change is never confirmed by its own demonstration program
             r = subprocess.run([sys.executable, os.path.join(ROOT, "vx", "check.py"), "--property", prop, "--tier", "quick"], cwd=ROOT, env=env,
                                stdout=subprocess.PIPE, stderr=subprocess.STDOUT, text=True, timeout=3600)
-            first = next((l for l in r.stdout.split("\n") if l.startswith(("VIOLATION", "UNDECIDED"))), "")
+            first = next((l for l in r.stdout.split("\n") if l.startswith("VIOLATION")), "") or next((l for l in r.stdout.split("\n") if l.startswith("UNDECIDED")), "")
             obl = first.split("obligation=")[1].split(" clause")[0] if "obligation=" in first else ""
             return dict(seed=name, outcome={0: "not noticed", 1: "reported", 2: "undecided"}.get(r.returncode, "exit %d" % r.returncode), obligation=obl)
         except Exception as e:
